@@ -2188,3 +2188,22 @@ Qed.
 
 Theorem WInv_CInv w n ps : WInv w -> CInv (mkCW w n false ps).
 Proof. intros [H1 H2]. now split. Qed.
+
+(* round 7: the synchronisation FORGETS what the extra-bytes records of the list said: its result is a function of the
+   current extra dimensions and of the OTHER records only — two lists that differ only in their extra-bytes records (the
+   own one, the one of another file that describes dimensions of the same names and types with other scales, offsets,
+   descriptions, several of them, none) are synchronised to the same list *)
+Lemma sync_vlrs_forgets ex vl1 vl2 : filter not_eb vl1 = filter not_eb vl2 -> sync_vlrs ex vl1 = sync_vlrs ex vl2.
+Proof. intros H. unfold sync_vlrs. rewrite H. reflexivity. Qed.
+
+Lemma assign_vlrs_forgets s vl1 vl2 : filter not_eb vl1 = filter not_eb vl2 -> assign_vlrs s vl1 = assign_vlrs s vl2.
+Proof. intros H. unfold assign_vlrs. rewrite (sync_vlrs_forgets (st_extras s) vl1 vl2 H). reflexivity. Qed.
+
+(* a foreign extra-bytes record (any well-formed payload q: whatever it says about whatever dimensions) put anywhere in the
+   assigned list leaves no trace *)
+Lemma assign_vlrs_foreign_eb s vl1 vl2 q : len q mod 192 = 0 ->
+  assign_vlrs s (vl1 ++ eb_vlr q :: vl2) = assign_vlrs s (vl1 ++ vl2).
+Proof.
+  intros Hq. apply assign_vlrs_forgets. rewrite !filter_app. cbn [filter]. unfold not_eb at 2.
+  rewrite (is_eb_eb_vlr q Hq). reflexivity.
+Qed.
